@@ -68,7 +68,19 @@ def gen_history(rng, tier):
         elif x < 0.69:
             ops.append('config %d %d %d' % (c, rng.random() < 0.8, rng.randint(1, 50)))
         elif x < 0.75:
-            ops.append('addfail %d %d %d' % (p, rng.randint(1, 4), rng.choice([0, 1000, 2000, 5000, -1000])))
+            y = rng.random()
+            if y < 0.75:
+                ops.append('addfail %d %d %d' % (p, rng.randint(1, 4), rng.choice([0, 1000, 2000, 5000, -1000])))
+            elif y < 0.9:
+                # reports for an address that is not registered when they arrive (just removed, or never seen), then registration
+                q = rng.choice([p, 90 + rng.randint(0, 3)])
+                ops.append('rmproxy %d' % q)
+                for rep in range(rng.randint(1, 3)):
+                    ops.append('addfail %d %d %d' % (q, rep + 1, rng.choice([0, 1000])))
+                ops.append('addproxy %d %s %s' % (q, hosts.get(q, 10), str(q - 1) if ordered else '-'))
+                ops.append('getfail %d %d' % (rng.choice([2000, 9000]), rng.randint(1, 3)))
+            else:
+                ops.append('addfail %d %d %d' % (90 + rng.randint(0, 3), rng.randint(1, 4), rng.choice([0, 1000])))
         elif x < 0.80:
             ops.append('%s %d %d' % (rng.choice(['getfail', 'getfail', 'cleanfail']), rng.choice([0, 1000, 2000, 3000, 9000]), rng.randint(1, 4)))
         elif x < 0.84:
@@ -110,6 +122,8 @@ def scenario_histories():
              + ' ; replace 7 0 ? ; replace 8 0 ? ; replace 1 0 ? ; replace 2 0 ? ; commitnth 1 0 1 ; commitnth 1 0 1',
         base + ' ; addcluster 1 4 1 ? ; addfail 1 1 0 ; addfail 1 1 0 ; addfail 1 2 1000 ; getfail 2000 2 ; getfail 1000 2 ; getfail 1000 1 ; addproxy 1 10 - ; getfail 9000 1',
         base + ' ; addcluster 1 8 1 ? ; recover 100 ; forcebump 50 ; forcebump 500 ; restore 3 ; restore 14 ; recover 0',
+        # reports arriving for unregistered addresses (removed / never registered), then registration and a query
+        base + ' ; rmproxy 12 ; addfail 12 1 0 ; addfail 12 2 0 ; addproxy 12 10 - ; getfail 9000 2 ; addfail 50 1 0 ; addfail 50 2 1000 ; getfail 9000 1 ; addproxy 50 11 - ; getfail 9000 2',
         'H 1 ; ' + ' ; '.join('addproxy %d %d %d' % (i, 10 + (i % 2), i - 1) for i in range(1, 9)) + ' ; addcluster 1 4 2 ? ; addnodes 1 4 ? ; migrate 1 ; replace 1 0 ? ; commitnth 1 0 1 ; commitnth 1 0 1',
         # skewed hosts: one host holds most proxies
         'H 0 ; ' + ' ; '.join('addproxy %d %d -' % (i, 10 if i < 7 else 11 + (i % 2)) for i in range(1, 11)) + ' ; addcluster 1 8 1 ? ; addcluster 2 4 1 ? ; addnodes 1 4 ?',
